@@ -1,24 +1,36 @@
 package main
 
-// C01: sampling tie for the float64 gap. The real schedule constructors are
-// drained and the emitted token offsets are handed to the executable Spec
-// (lean/Pandora/Spec/C01.lean) together with the exact rational values of the
-// float64 parameters.
+// C01: sampling tie for the float64 gap, and the glue around the modelled arithmetic.
+//
+// Every case is a load-profile CONFIGURATION. It is decoded exactly like a section of a pandora config file:
+// coreimport.Import registers the limiter plugins, config.Decode runs the mapstructure hooks (string -> duration),
+// picks the plugin by its "type", fills the plugin's config struct and validates its `validate` tags. A rejected
+// configuration is the observation REJECT. An accepted one yields the real core.Schedule, which is asked for Left(),
+// started at t0 and drained; the token offsets are handed to the executable Spec (lean/Pandora/Spec/C01.lean) together
+// with the exact rational values of the float64 parameters.
 
 import (
 	"fmt"
 	"math"
 	"math/big"
 	"math/rand"
+	"sort"
 	"strconv"
 	"strings"
+	"sync"
 	"time"
 
 	"verifharness/drv"
 
+	"github.com/spf13/afero"
 	"github.com/yandex/pandora/core"
-	"github.com/yandex/pandora/core/schedule"
+	"github.com/yandex/pandora/core/config"
+	coreimport "github.com/yandex/pandora/core/import"
 )
+
+// more tokens than this are not drained: observation TOOMANY (the Lean driver accepts that only when the profile
+// really holds more; see Drv/C01.lean capTokens)
+const capTokens = 3_000_000
 
 func ratOf(f float64) string {
 	r := new(big.Rat)
@@ -34,30 +46,42 @@ func parseRat(s string) float64 {
 	if !ok {
 		panic("bad rational " + s)
 	}
-	f, _ := r.Float64()
+	f, exact := r.Float64()
+	if !exact {
+		panic("rational is not a float64: " + s)
+	}
 	return f
 }
 
-func c01Durations(r *rand.Rand) time.Duration {
-	switch r.Intn(6) {
+// ---------------------------------------------------------------- generators
+
+func c01Duration(r *rand.Rand) time.Duration {
+	switch r.Intn(9) {
 	case 0:
 		return time.Duration(1+r.Intn(10)) * time.Second
 	case 1:
 		return time.Duration(1+r.Intn(39)) * 100 * time.Millisecond
 	case 2:
-		return time.Duration(1000000 + r.Int63n(20_000_000_000))
+		return time.Duration(1000000 + r.Int63n(20_000_000_000)) // any ns count
 	case 3:
 		return time.Millisecond * time.Duration(1+r.Intn(2000))
 	case 4:
 		return time.Duration(1+r.Intn(60)) * time.Minute
+	case 5:
+		return time.Millisecond // the shortest accepted duration
+	case 6:
+		return time.Duration(1+r.Intn(72)) * time.Hour // long runs: float64 ns lose their last bits
+	case 7:
+		return time.Duration(1000000 + r.Int63n(5_000_000)) // 1..6 ms, odd ns
 	default:
 		return time.Duration(500+r.Intn(2500)) * time.Millisecond
 	}
 }
 
+// a rate such that rate*secs stays below the token budget
 func c01Rate(r *rand.Rand, maxRate float64) float64 {
 	var v float64
-	switch r.Intn(7) {
+	switch r.Intn(10) {
 	case 0:
 		v = 0
 	case 1:
@@ -70,45 +94,208 @@ func c01Rate(r *rand.Rand, maxRate float64) float64 {
 		v = math.Nextafter(float64(1+r.Intn(1000)), math.Inf(1-2*r.Intn(2)))
 	case 5:
 		v = r.Float64() * 1000
+	case 6:
+		v = maxRate * r.Float64() // as large as the budget allows (huge rates on short durations)
+	case 7:
+		v = math.Pow(10, -float64(r.Intn(12))) * (1 + r.Float64()) // tiny rates
+	case 8:
+		v = float64(int64(maxRate)) // the budget itself, integral
 	default:
 		v = float64(r.Intn(1000)) + 0.5
 	}
 	if v > maxRate {
 		v = math.Floor(maxRate)
 	}
-	if v < 0 {
+	if v < 0 || math.IsNaN(v) || math.IsInf(v, 0) {
 		v = 0
 	}
 	return v
 }
 
-func c01Gen(r *rand.Rand, tier string) []string {
-	n := 1500
-	if tier == "thorough" {
-		n = 30000
-	}
-	var out []string
-	// fixed enumerations first: fractional-second lines in both directions (witnesses of the fixed defect)
-	for _, d := range []int64{500e6, 1500e6, 2500e6, 1e6, 999999999, 1000000001, 2e9} {
-		for _, ft := range [][2]float64{{0, 10}, {10, 0}, {5, 50}, {100, 1}, {0, 1000}, {3, 3}} {
-			out = append(out, fmt.Sprintf("kind=line from=%s to=%s dur=%d", ratOf(ft[0]), ratOf(ft[1]), d))
+// a second end rate that makes the line ill-conditioned w.r.t. the first (nearly flat, or one end nearly zero)
+func c01NearRate(r *rand.Rand, f, maxRate float64) float64 {
+	var t float64
+	switch r.Intn(6) {
+	case 0: // adjacent floats, 1..1000 ulps apart
+		t = f
+		dir := math.Inf(1 - 2*r.Intn(2))
+		for i, k := 0, 1+r.Intn(1000); i < k; i++ {
+			t = math.Nextafter(t, dir)
 		}
-		out = append(out, fmt.Sprintf("kind=const ops=%s dur=%d", ratOf(7), d))
-		out = append(out, fmt.Sprintf("kind=step from=%s to=%s step=%d dur=%d", ratOf(1), ratOf(10), 3, d))
+		if r.Intn(2) == 0 {
+			t = math.Nextafter(f, dir)
+		}
+	case 1, 2: // relative slope 10^-3 … 10^-15
+		t = f * (1 + float64(1-2*r.Intn(2))*math.Pow(10, -float64(3+r.Intn(13))))
+	case 3: // one end tiny
+		t = f * math.Pow(10, -float64(3+r.Intn(14)))
+	case 4: // one end exactly zero
+		t = 0
+	default: // absolute difference tiny
+		t = f + float64(1-2*r.Intn(2))*math.Pow(2, -float64(10+r.Intn(40)))
+	}
+	if t < 0 || math.IsNaN(t) {
+		t = 0
+	}
+	if t > maxRate {
+		t = f
+	}
+	return t
+}
+
+func lineIn(f, t float64, d int64) string {
+	return fmt.Sprintf("kind=line from=%s to=%s dur=%d", ratOf(f), ratOf(t), d)
+}
+func constIn(ops float64, d int64) string {
+	return fmt.Sprintf("kind=const ops=%s dur=%d", ratOf(ops), d)
+}
+func stepIn(f, t float64, st, d int64) string {
+	return fmt.Sprintf("kind=step from=%s to=%s step=%d dur=%d", ratOf(f), ratOf(t), st, d)
+}
+
+// configurations at and beyond the border of what validation accepts
+func c01Borders(r *rand.Rand, n int) []string {
+	neg := []float64{-1, -0.5, -1e-9, -math.SmallestNonzeroFloat64, -1e9}
+	badDur := []int64{0, -1, -1000000000, 1, 999999, 500000}
+	okDur := []int64{1000000, 1000001, 1500000000, 2000000000}
+	var out []string
+	for _, d := range badDur {
+		out = append(out, constIn(3, d), lineIn(1, 5, d), lineIn(5, 5, d), stepIn(1, 5, 2, d))
+	}
+	for _, d := range okDur[:2] {
+		out = append(out, constIn(3000, d), lineIn(1000, 5000, d), lineIn(0, 0, d), stepIn(1000, 5000, 2000, d), constIn(0, d))
+	}
+	for _, v := range neg {
+		for _, d := range okDur[1:3] {
+			out = append(out, constIn(v, d), lineIn(v, 5, d), lineIn(5, v, d), lineIn(v, v, d), stepIn(v, 5, 1, d), stepIn(1, v, 1, d))
+		}
+	}
+	for _, st := range []int64{0, -1, -7, 1, 2} {
+		out = append(out, stepIn(1, 6, st, 1500000000))
+	}
+	for _, tm := range []int64{0, -1, -5, 1, 2} {
+		out = append(out, fmt.Sprintf("kind=once times=%d", tm))
 	}
 	for i := 0; i < n; i++ {
-		d := c01Durations(r)
+		d := okDur[r.Intn(len(okDur))]
+		if r.Intn(2) == 0 {
+			d = badDur[r.Intn(len(badDur))]
+		}
+		v := float64(r.Intn(20))
+		if r.Intn(2) == 0 {
+			v = -r.Float64() * math.Pow(10, float64(r.Intn(6)-3))
+		}
+		w := float64(r.Intn(20))
+		if r.Intn(4) == 0 {
+			w = -w - 0.25
+		}
+		switch r.Intn(4) {
+		case 0:
+			out = append(out, constIn(v, d))
+		case 1:
+			out = append(out, lineIn(v, w, d))
+		case 2:
+			out = append(out, stepIn(v, w, int64(r.Intn(5)-1), d))
+		default:
+			out = append(out, fmt.Sprintf("kind=once times=%d", r.Intn(7)-3))
+		}
+	}
+	return out
+}
+
+// every combination of a few small rates and awkward durations (thorough tier)
+func c01Exhaustive() []string {
+	rates := []float64{0, 0.1, 0.5, 1, 2, 3, 7, 10, 33.3, 100, 1000}
+	durs := []int64{1000000, 1000001, 333333333, 500000000, 999999999, 1000000000, 1000000001, 1500000000, 2500000000, 10000000001, 60000000000}
+	var out []string
+	for _, d := range durs {
+		for _, f := range rates {
+			if f*float64(d)/1e9 <= 400000 {
+				out = append(out, constIn(f, d))
+			}
+			for _, t := range rates {
+				if (f+t)/2*float64(d)/1e9 <= 400000 {
+					out = append(out, lineIn(f, t, d))
+				}
+			}
+		}
+	}
+	for _, d := range []int64{1000000, 500000000, 1000000000, 1500000000} {
+		for f := 0; f <= 6; f++ {
+			for t := 0; t <= 6; t++ {
+				for st := 1; st <= 3; st++ {
+					out = append(out, stepIn(float64(f), float64(t), int64(st), d))
+					if st == 1 {
+						out = append(out, stepIn(float64(f)+0.5, float64(t), int64(st), d))
+					}
+				}
+			}
+		}
+	}
+	return out
+}
+
+func c01Gen(r *rand.Rand, tier string) []string {
+	n, nIll, nBorder := 4500, 1500, 200
+	budget := 300000.0
+	if tier == "thorough" {
+		n, nIll, nBorder = 100000, 40000, 4000
+		budget = 500000.0
+	}
+	var out []string
+	// fixed enumeration: fractional-second lines in both directions (the cea82db defect), flat, const, step
+	for _, d := range []int64{500e6, 1500e6, 2500e6, 1e6, 999999999, 1000000001, 2e9} {
+		for _, ft := range [][2]float64{{0, 10}, {10, 0}, {5, 50}, {100, 1}, {0, 1000}, {3, 3}} {
+			out = append(out, lineIn(ft[0], ft[1], d))
+		}
+		out = append(out, constIn(7, d), stepIn(1, 10, 3, d))
+	}
+	out = append(out, c01Borders(r, nBorder)...)
+	if tier == "thorough" {
+		out = append(out, c01Exhaustive()...)
+		// a few profiles near and beyond the token cap
+		out = append(out, constIn(2_900_000, 1e9), lineIn(0, 5_000_000, 1e9), constIn(1e9, 1e6), constIn(4_000_000, 1e9),
+			lineIn(1e7, 0, 1e9), constIn(1e19, 1e9), stepIn(1_000_000, 2_000_000, 1_000_000, 1e9))
+	}
+	withT0 := func(s string) string {
+		if r.Intn(3) == 0 {
+			return s + fmt.Sprintf(" t0=%d", r.Int63n(4_000_000_000_000_000_000))
+		}
+		return s
+	}
+	// ill-conditioned lines
+	for i := 0; i < nIll; i++ {
+		d := c01Duration(r)
+		maxRate := budget / (float64(d) / 1e9)
+		f := c01Rate(r, maxRate)
+		if f == 0 {
+			f = 1 + float64(r.Intn(1000))
+			if f > maxRate {
+				f = maxRate
+			}
+		}
+		t := c01NearRate(r, f, maxRate)
+		if r.Intn(2) == 0 {
+			f, t = t, f
+		}
+		out = append(out, withT0(lineIn(f, t, int64(d))))
+	}
+	for i := 0; i < n; i++ {
+		d := c01Duration(r)
 		secs := float64(d) / 1e9
-		maxRate := 400000 / secs // cap tokens per profile
+		maxRate := budget / secs // cap tokens per profile
 		switch r.Intn(10) {
 		case 0, 1, 2:
-			out = append(out, fmt.Sprintf("kind=const ops=%s dur=%d", ratOf(c01Rate(r, maxRate)), int64(d)))
+			out = append(out, withT0(constIn(c01Rate(r, maxRate), int64(d))))
 		case 3, 4, 5, 6:
-			out = append(out, fmt.Sprintf("kind=line from=%s to=%s dur=%d", ratOf(c01Rate(r, maxRate)), ratOf(c01Rate(r, maxRate)), int64(d)))
+			out = append(out, withT0(lineIn(c01Rate(r, maxRate), c01Rate(r, maxRate), int64(d))))
 		case 7, 8:
 			f := float64(r.Intn(20))
 			if r.Intn(3) == 0 {
 				f += 0.5
+			}
+			if r.Intn(8) == 0 {
+				f = c01Rate(r, maxRate/4)
 			}
 			t := f + float64(r.Intn(40))
 			if r.Intn(10) == 0 {
@@ -117,19 +304,29 @@ func c01Gen(r *rand.Rand, tier string) []string {
 					t = 0
 				}
 			}
-			if t > maxRate {
+			st := int64(1 + r.Intn(7))
+			levels := math.Floor((t-f)/float64(st)) + 1
+			if levels < 1 {
+				levels = 1
+			}
+			if (f+t)/2*levels > maxRate || levels > 60 {
 				continue
 			}
-			st := 1 + r.Intn(7)
-			out = append(out, fmt.Sprintf("kind=step from=%s to=%s step=%d dur=%d", ratOf(f), ratOf(t), st, int64(d)))
+			out = append(out, withT0(stepIn(f, t, st, int64(d))))
 		default:
-			out = append(out, fmt.Sprintf("kind=once times=%d", 1+r.Intn(500)))
+			out = append(out, withT0(fmt.Sprintf("kind=once times=%d", 1+r.Intn(500))))
 		}
 	}
 	return out
 }
 
-func c01Build(m map[string]string) core.Schedule {
+// ---------------------------------------------------------------- running the real code
+
+var importOnce sync.Once
+
+// c01Decode builds the schedule the way a config file section does. ok=false: the configuration was rejected.
+func c01Decode(m map[string]string) (s core.Schedule, ok bool) {
+	importOnce.Do(func() { coreimport.Import(afero.NewMemMapFs()) })
 	atoi := func(k string) int64 {
 		v, err := strconv.ParseInt(m[k], 10, 64)
 		if err != nil {
@@ -137,25 +334,50 @@ func c01Build(m map[string]string) core.Schedule {
 		}
 		return v
 	}
+	sec := map[string]interface{}{"type": m["kind"]}
 	switch m["kind"] {
 	case "const":
-		return schedule.NewConstConf(schedule.ConstConfig{Ops: parseRat(m["ops"]), Duration: time.Duration(atoi("dur"))})
+		sec["ops"] = parseRat(m["ops"])
 	case "line":
-		return schedule.NewLineConf(schedule.LineConfig{From: parseRat(m["from"]), To: parseRat(m["to"]), Duration: time.Duration(atoi("dur"))})
+		sec["from"], sec["to"] = parseRat(m["from"]), parseRat(m["to"])
 	case "step":
-		return schedule.NewStepConf(schedule.StepConfig{From: parseRat(m["from"]), To: parseRat(m["to"]), Step: atoi("step"), Duration: time.Duration(atoi("dur"))})
+		sec["from"], sec["to"], sec["step"] = parseRat(m["from"]), parseRat(m["to"]), atoi("step")
 	case "once":
-		return schedule.NewOnceConf(schedule.OnceConfig{Times: atoi("times")})
+		sec["times"] = atoi("times")
+	default:
+		panic("kind")
 	}
-	panic("kind")
+	if m["kind"] != "once" {
+		sec["duration"] = fmt.Sprintf("%dns", atoi("dur")) // a string, as in a YAML file
+	}
+	var conf struct {
+		RPS core.Schedule `config:"rps"`
+	}
+	if err := config.DecodeAndValidate(map[string]interface{}{"rps": sec}, &conf); err != nil {
+		return nil, false
+	}
+	if conf.RPS == nil {
+		panic("decoded schedule is nil")
+	}
+	return conf.RPS, true
 }
 
 func c01Run(input string) string {
 	m := drv.KV(input)
-	s := c01Build(m)
+	s, ok := c01Decode(m)
+	if !ok {
+		return "REJECT"
+	}
+	left0 := s.Left()
 	t0 := time.Unix(1_700_000_000, 0)
+	if v, ok := m["t0"]; ok {
+		ns, err := strconv.ParseInt(v, 10, 64)
+		if err != nil {
+			panic(err)
+		}
+		t0 = time.Unix(0, ns)
+	}
 	s.Start(t0)
-	const capTokens = 3_000_000
 	var toks []int64
 	mono := true
 	var tmin, tmax int64 = math.MaxInt64, math.MinInt64
@@ -188,12 +410,16 @@ func c01Run(input string) string {
 			stable = false
 		}
 	}
-	if len(toks) == 0 {
+	if s.Left() != 0 {
+		stable = false
+	}
+	n := len(toks)
+	if n == 0 {
 		tmin, tmax = 0, 0
 	}
-	// sample: first 12, last 12, 16 spread, deterministic in the input
+	// tokens shown to the Spec: the first and last 12, 24 spread deterministically, the places where the spacing
+	// changes most abruptly (a local glitch), and for step profiles the tokens around every change of level
 	idx := map[int]bool{}
-	n := len(toks)
 	for i := 0; i < 12 && i < n; i++ {
 		idx[i] = true
 		idx[n-1-i] = true
@@ -203,19 +429,75 @@ func c01Run(input string) string {
 		h = h*31 + int64(c)
 	}
 	rr := rand.New(rand.NewSource(h))
-	for i := 0; i < 16 && n > 0; i++ {
+	for i := 0; i < 24 && n > 0; i++ {
 		idx[rr.Intn(n)] = true
 	}
-	var sb strings.Builder
-	first := true
-	for i := 0; i < n; i++ {
-		if idx[i] {
-			if !first {
-				sb.WriteByte(';')
-			}
-			first = false
-			fmt.Fprintf(&sb, "%d:%d", i, toks[i])
+	if n >= 3 {
+		type gl struct {
+			i int
+			v int64
 		}
+		var worst [4]gl
+		for i := 1; i+1 < n; i++ {
+			d2 := (toks[i+1] - toks[i]) - (toks[i] - toks[i-1])
+			if d2 < 0 {
+				d2 = -d2
+			}
+			for j := range worst {
+				if d2 > worst[j].v {
+					copy(worst[j+1:], worst[j:len(worst)-1])
+					worst[j] = gl{i, d2}
+					break
+				}
+			}
+		}
+		for _, g := range worst {
+			if g.v > 0 {
+				idx[g.i-1], idx[g.i], idx[g.i+1] = true, true, true
+			}
+		}
+	}
+	// step: how many tokens fall into each level's time slot [j*dur, (j+1)*dur)
+	parts := ""
+	if m["kind"] == "step" {
+		d, _ := strconv.ParseInt(m["dur"], 10, 64)
+		var cnt []int
+		if d > 0 {
+			for i, t := range toks {
+				j := int(t / d)
+				if j < 0 {
+					j = 0
+				}
+				for len(cnt) <= j && len(cnt) < 100000 {
+					cnt = append(cnt, 0)
+				}
+				if j < len(cnt) {
+					cnt[j]++
+				}
+				if i > 0 && toks[i-1]/d != t/d {
+					idx[i-1], idx[i] = true, true
+				}
+			}
+		}
+		var ps []string
+		for _, c := range cnt {
+			ps = append(ps, strconv.Itoa(c))
+		}
+		parts = " parts=" + strings.Join(ps, ",")
+	}
+	keys := make([]int, 0, len(idx))
+	for i := range idx {
+		if i >= 0 && i < n {
+			keys = append(keys, i)
+		}
+	}
+	sort.Ints(keys)
+	var sb strings.Builder
+	for j, i := range keys {
+		if j > 0 {
+			sb.WriteByte(';')
+		}
+		fmt.Fprintf(&sb, "%d:%d", i, toks[i])
 	}
 	b := func(x bool) int {
 		if x {
@@ -223,27 +505,54 @@ func c01Run(input string) string {
 		}
 		return 0
 	}
-	return fmt.Sprintf("n=%d fin=%d finstable=%d mono=%d tmin=%d tmax=%d toks=%s", n, fin, b(stable), b(mono), tmin, tmax, sb.String())
+	return fmt.Sprintf("left0=%d n=%d fin=%d finstable=%d mono=%d tmin=%d tmax=%d%s toks=%s", left0, n, fin, b(stable), b(mono), tmin, tmax, parts, sb.String())
+}
+
+func c01Class(in, obs string) string {
+	m := drv.KV(in)
+	if obs == "REJECT" {
+		return "rejected/" + m["kind"]
+	}
+	o := drv.KV(obs)
+	if o["n"] == "0" || o["n"] == "" {
+		return ""
+	}
+	d, _ := strconv.ParseInt(m["dur"], 10, 64)
+	frac := "whole-seconds"
+	if d%1e9 != 0 {
+		frac = "fractional-seconds"
+	}
+	c := m["kind"] + "/" + frac
+	if m["kind"] == "line" {
+		f, t := parseRat(m["from"]), parseRat(m["to"])
+		switch {
+		case f == t:
+			c += "/flat"
+		case math.Abs(t-f) <= 1e-6*math.Max(f, t):
+			c += "/nearly-flat"
+		case f == 0 || t == 0:
+			c += "/zero-end"
+		case t > f:
+			c += "/increasing"
+		default:
+			c += "/decreasing"
+		}
+	}
+	return c
 }
 
 func main() {
 	drv.Main(&drv.Prop{
-		ID:  "C01",
-		Gen: c01Gen,
-		Run: c01Run,
-		Class: func(in, obs string) string {
-			m := drv.KV(in)
-			o := drv.KV(obs)
-			if o["n"] == "0" || o["n"] == "" {
-				return ""
-			}
-			d, _ := strconv.ParseInt(m["dur"], 10, 64)
-			frac := "whole-seconds"
-			if d%1e9 != 0 {
-				frac = "fractional-seconds"
-			}
-			return m["kind"] + "/" + frac
-		},
-		Rule: "profiles drawn from one PRNG: const/line/step/once, durations whole seconds, k*100ms, random ns >= 1ms, minutes; rates 0, decimals, integers, adjacent floats; plus a fixed enumeration of fractional-second lines. non-trivial = at least one token emitted; distinct = distinct input line",
+		ID:      "C01",
+		Gen:     c01Gen,
+		Run:     c01Run,
+		Class:   c01Class,
+		Workers: 16,
+		Timeout: 180 * time.Second,
+		Rule: "load-profile configurations decoded through the plugin registry + validation (coreimport.Import, config.DecodeAndValidate), one PRNG: " +
+			"const/line/step/once; durations 1 ms, odd ns counts, k*100 ms, whole seconds, minutes, hours; rates 0, tiny, decimals, integers, adjacent floats, " +
+			"as large as the token budget allows; a stream of ill-conditioned lines (ends 1..1000 ulps apart, relative slope down to 1e-15, one end (nearly) zero); " +
+			"a stream at and beyond the validation border (negative rates, durations < 1 ms, step/times < 1); fixed enumeration of fractional-second lines; " +
+			"thorough adds the full grid of 11 rates x 11 rates x 11 durations and small step grids. non-trivial = at least one token emitted or a rejected configuration; distinct = distinct input line",
 	})
 }
